@@ -873,6 +873,7 @@ def dict_ops(keys=None, vals=None):
       Op('dict(pg.Dict(list(x.items())))', 'dict.ctor-from-pairs', mut=False, ref=lambda r: dict(r)),
       Op('dict(pg.Dict(dict(x), extra=1))', 'dict.ctor-kwargs', mut=False, ref=lambda r: dict(r, extra=1)),
       Op('dict(pg.Dict(dict(x), gone=M, extra=1))', 'dict.ctor-with-MISSING', mut=False, ref=lambda r: dict(r, extra=1)),
+      Op('dict(pg.Dict(dict(x), a=99, b=98))', 'dict.ctor-kwargs-override', mut=False, ref=lambda r: dict(r, a=99, b=98)),
       Op('dict(pg.Dict.fromkeys(list(x), 0))', 'dict.fromkeys', mut=False, ref=lambda r: dict.fromkeys(list(r), 0)),
   ]
   return ops
